@@ -399,7 +399,7 @@ func variants(seed int64, thorough bool) []variant {
 	rnd := rand.New(rand.NewSource(seed))
 	npairs, nrandom := 40, 60
 	if thorough {
-		npairs, nrandom = 1500, 1500
+		npairs, nrandom = 6000, 6000
 	}
 	for i := 0; i < npairs; i++ {
 		a, b := ss[rnd.Intn(len(ss))], ss[rnd.Intn(len(ss))]
